@@ -13,10 +13,18 @@
 //   silences that can arise are >= 300 ms away from the lease on the "still alive" side, real run
 //   time of one sequence is << 150 ms (re-run otherwise).
 // Bound: 2 remote participants with adjacent GUID prefixes, one reader (EntityId::MAX) and one
-//   writer each; EVERY operation sequence of length <= 4 over the 23 operations
+//   writer each; EVERY operation sequence of length <= 4 over the 23 lease operations
 //   {cleanup, announce(p, lease absent | 1 s | 2 s), alive(p), age(p, 0.7 | 1.6 | 99.7 | 100.3 s),
 //    dispose(p), update_subscription(p), update_publication(p)}, started from three states:
 //   empty DB / both participants announced with endpoints / one participant timed out (attic).
+// Housekeeping: the other `&mut self` operations of DiscoveryDB that are not lease handling
+//   {topic_cleanup, update_local_topic_writer, remove_local_topic_writer, remove_local_topic_reader,
+//    update_topic_data, update_lease_duration(p)} are NO-OPS for everything the oracle looks at
+//   (participants, known / parked endpoints, lost reports). They are interleaved with the lease
+//   operations in every sequence of length <= 3 over all 30 operations from the three states, and
+//   in every sequence of length 4 over 20 operations (7 housekeeping + cleanup, announce(p, 1 s),
+//   alive(p), age(p, 1.6 s), dispose(p), subscription(p), publication(p)) from the two non-empty
+//   states (test xc_lease_housekeeping).
 #[cfg(test)]
 mod verif_xc_leases {
   use std::time::{Duration as StdDuration, Instant};
@@ -45,6 +53,21 @@ mod verif_xc_leases {
     Dispose(usize),
     Sub(usize), // SEDP: p has a reader
     Pub(usize), // SEDP: p has a writer
+    // housekeeping, not lease handling: nothing the oracle looks at may change
+    TopicCleanup,           // the periodic topic_cleanup()
+    LocalWriter,            // update_local_topic_writer: this participant writes TOPIC
+    LocalWriterGone,        // remove_local_topic_writer
+    LocalReaderGone,        // remove_local_topic_reader
+    TopicData,              // update_topic_data: TOPIC announced on the topic topic
+    WriterLiveliness(usize), // update_lease_duration: liveliness message for p's writers
+  }
+  impl Op {
+    fn is_housekeeping(self) -> bool {
+      matches!(
+        self,
+        Op::TopicCleanup | Op::LocalWriter | Op::LocalWriterGone | Op::LocalReaderGone | Op::TopicData | Op::WriterLiveliness(_)
+      )
+    }
   }
 
   impl std::fmt::Debug for Op {
@@ -58,6 +81,12 @@ mod verif_xc_leases {
         Op::Dispose(p) => write!(f, "dispose(p{})", p),
         Op::Sub(p) => write!(f, "reader(p{})", p),
         Op::Pub(p) => write!(f, "writer(p{})", p),
+        Op::TopicCleanup => write!(f, "topic_cleanup"),
+        Op::LocalWriter => write!(f, "local_writer"),
+        Op::LocalWriterGone => write!(f, "local_writer_gone"),
+        Op::LocalReaderGone => write!(f, "local_reader_gone"),
+        Op::TopicData => write!(f, "topic_data"),
+        Op::WriterLiveliness(p) => write!(f, "writer_liveliness(p{})", p),
       }
     }
   }
@@ -76,6 +105,36 @@ mod verif_xc_leases {
       v.push(Op::Sub(p));
       v.push(Op::Pub(p));
     }
+    v
+  }
+  fn housekeeping() -> Vec<Op> {
+    vec![
+      Op::TopicCleanup,
+      Op::LocalWriter,
+      Op::LocalWriterGone,
+      Op::LocalReaderGone,
+      Op::TopicData,
+      Op::WriterLiveliness(0),
+      Op::WriterLiveliness(1),
+    ]
+  }
+  fn full_alphabet() -> Vec<Op> {
+    let mut v = alphabet();
+    v.extend(housekeeping());
+    v
+  }
+  // for the length-4 interleavings with housekeeping: one value per lease operation
+  fn reduced_alphabet() -> Vec<Op> {
+    let mut v = vec![Op::Cleanup];
+    for p in 0..2 {
+      v.push(Op::Announce(p, Some(1000)));
+      v.push(Op::Alive(p));
+      v.push(Op::Age(p, 1600));
+      v.push(Op::Dispose(p));
+      v.push(Op::Sub(p));
+      v.push(Op::Pub(p));
+    }
+    v.extend(housekeeping());
     v
   }
 
@@ -196,6 +255,13 @@ mod verif_xc_leases {
           self.p[i].ep[1].known = true;
           Expect::Nothing
         }
+        // housekeeping: no effect on participants, endpoints (known or parked) or lost reports
+        Op::TopicCleanup
+        | Op::LocalWriter
+        | Op::LocalWriterGone
+        | Op::LocalReaderGone
+        | Op::TopicData
+        | Op::WriterLiveliness(_) => Expect::Nothing,
       }
     }
   }
@@ -255,6 +321,35 @@ mod verif_xc_leases {
         content_filter: None,
       }
     }
+    fn my_guid(&self) -> GUID {
+      GUID::new(GuidPrefix::new(&[9; 12]), EntityId::PARTICIPANT) // this participant
+    }
+    fn local_writer_guid(&self) -> GUID {
+      GUID::new(
+        GuidPrefix::new(&[9; 12]),
+        EntityId::new([0, 0, 5], crate::structure::guid::EntityKind::WRITER_WITH_KEY_USER_DEFINED),
+      )
+    }
+    fn local_reader_guid(&self) -> GUID {
+      GUID::new(
+        GuidPrefix::new(&[9; 12]),
+        EntityId::new([0, 0, 6], crate::structure::guid::EntityKind::READER_WITH_KEY_USER_DEFINED),
+      )
+    }
+    fn local_writer(&self) -> DiscoveredWriterData {
+      let g = self.local_writer_guid();
+      DiscoveredWriterData {
+        last_updated: Instant::now(),
+        writer_proxy: WriterProxy::new(g, vec![], vec![]),
+        publication_topic_data: PublicationBuiltinTopicData::new(
+          g,
+          Some(self.my_guid()),
+          TOPIC.to_string(),
+          TYPE.to_string(),
+          None,
+        ),
+      }
+    }
     fn writer(&self, p: usize) -> DiscoveredWriterData {
       let g = self.writer_guid(p);
       DiscoveredWriterData {
@@ -306,6 +401,7 @@ mod verif_xc_leases {
       (Op::Dispose(_), _) => "lease.dispose.immediate",
       (Op::Age(..), _) => "xc.age",
       (Op::Sub(_), _) | (Op::Pub(_), _) => "lease.update.endpoint",
+      _ => "lease.housekeeping.frame",
     }
   }
 
@@ -313,7 +409,7 @@ mod verif_xc_leases {
     while fx.topic_updated.1.try_recv().is_ok() {}
     while fx.status.1.try_recv().is_ok() {}
     DiscoveryDB::new(
-      GUID::new(GuidPrefix::new(&[9; 12]), EntityId::PARTICIPANT), // this participant
+      fx.my_guid(),
       fx.topic_updated.0.clone(),
       fx.status.0.clone(),
     )
@@ -432,6 +528,23 @@ mod verif_xc_leases {
         Op::Pub(p) => {
           db.update_publication(&fx.writer(p));
         }
+        Op::TopicCleanup => db.topic_cleanup(),
+        Op::LocalWriter => db.update_local_topic_writer(fx.local_writer()),
+        Op::LocalWriterGone => db.remove_local_topic_writer(fx.local_writer_guid()),
+        Op::LocalReaderGone => db.remove_local_topic_reader(fx.local_reader_guid()),
+        Op::TopicData => db.update_topic_data(
+          &DiscoveredTopicData::new(
+            Utc::now(),
+            TopicBuiltinTopicData::new(None, TOPIC.to_string(), TYPE.to_string(), &QosPolicies::qos_none()),
+          ),
+          fx.my_guid(),
+          DiscoveredVia::Topic,
+        ),
+        Op::WriterLiveliness(p) => db.update_lease_duration(&ParticipantMessageData {
+          guid: fx.prefix[p],
+          kind: crate::discovery::sedp_messages::ParticipantMessageDataKind::AUTOMATIC_LIVELINESS_UPDATE,
+          data: vec![],
+        }),
       }
       if checked {
         let s = observe(fx, &db);
@@ -485,22 +598,25 @@ mod verif_xc_leases {
     }
   }
 
-  // shortest sequences first, so that a witness is as short as possible
-  fn enumerate_from(prefix: &[Op], max_len: usize) -> u64 {
+  // shortest sequences first, so that a witness is as short as possible.
+  // `only_with_housekeeping`: skip the sequences without a housekeeping operation (they are
+  // enumerated elsewhere)
+  fn enumerate_from(prefix: &[Op], alpha: &[Op], lens: std::ops::RangeInclusive<usize>, only_with_housekeeping: bool) -> u64 {
     let fx = Fixture::new();
-    let alpha = alphabet();
     let mut n = 0u64;
     // the start state itself must be consistent with the model
     if !prefix.is_empty() {
       run_robust(&fx, prefix, 0);
     }
-    for len in 1..=max_len {
+    for len in lens {
       let mut ix = vec![0usize; len];
       'odometer: loop {
-        let mut seq: Vec<Op> = prefix.to_vec();
-        seq.extend(ix.iter().map(|&i| alpha[i]));
-        run_robust(&fx, &seq, prefix.len());
-        n += 1;
+        if !only_with_housekeeping || ix.iter().any(|&i| alpha[i].is_housekeeping()) {
+          let mut seq: Vec<Op> = prefix.to_vec();
+          seq.extend(ix.iter().map(|&i| alpha[i]));
+          run_robust(&fx, &seq, prefix.len());
+          n += 1;
+        }
         let mut k = len;
         loop {
           if k == 0 {
@@ -518,41 +634,57 @@ mod verif_xc_leases {
     n
   }
 
+  // all lease sequences of length <= 4, plus all sequences of length <= 3 that interleave them
+  // with housekeeping
+  fn lease_and_short_housekeeping(start: &[Op]) {
+    let n = enumerate_from(start, &alphabet(), 1..=4, false);
+    assert!(n > 290_000, "vacuity guard: only {} sequences enumerated", n);
+    let h = enumerate_from(start, &full_alphabet(), 1..=3, true);
+    assert!(h > 15_000, "vacuity guard: only {} sequences with housekeeping enumerated", h);
+  }
+
+  const START_ANNOUNCED: [Op; 5] = [
+    Op::Announce(0, Some(1000)),
+    Op::Sub(0),
+    Op::Pub(0),
+    Op::Announce(1, None),
+    Op::Sub(1),
+  ];
+  // participant 0 (lease 2 s) has timed out, its endpoints wait in the attic; participant 1
+  // (lease 1 s) has been silent for 0.7 s
+  const START_TIMED_OUT: [Op; 9] = [
+    Op::Announce(0, Some(2000)),
+    Op::Sub(0),
+    Op::Pub(0),
+    Op::Announce(1, Some(1000)),
+    Op::Pub(1),
+    Op::Age(0, 1600),
+    Op::Age(0, 700),
+    Op::Age(1, 700),
+    Op::Cleanup,
+  ];
+
   #[test]
   fn xc_lease_sequences_from_empty() {
-    let n = enumerate_from(&[], 4);
-    assert!(n > 290_000, "vacuity guard: only {} sequences enumerated", n);
+    lease_and_short_housekeeping(&[]);
   }
 
   #[test]
   fn xc_lease_sequences_from_announced() {
-    let start = [
-      Op::Announce(0, Some(1000)),
-      Op::Sub(0),
-      Op::Pub(0),
-      Op::Announce(1, None),
-      Op::Sub(1),
-    ];
-    let n = enumerate_from(&start, 4);
-    assert!(n > 290_000, "vacuity guard: only {} sequences enumerated", n);
+    lease_and_short_housekeeping(&START_ANNOUNCED);
   }
 
   #[test]
   fn xc_lease_sequences_from_timed_out() {
-    // participant 0 (lease 2 s) has timed out, its endpoints wait in the attic; participant 1
-    // (lease 1 s) has been silent for 0.7 s
-    let start = [
-      Op::Announce(0, Some(2000)),
-      Op::Sub(0),
-      Op::Pub(0),
-      Op::Announce(1, Some(1000)),
-      Op::Pub(1),
-      Op::Age(0, 1600),
-      Op::Age(0, 700),
-      Op::Age(1, 700),
-      Op::Cleanup,
-    ];
-    let n = enumerate_from(&start, 4);
-    assert!(n > 290_000, "vacuity guard: only {} sequences enumerated", n);
+    lease_and_short_housekeeping(&START_TIMED_OUT);
+  }
+
+  // length 4 with housekeeping in between (e.g. time-out, topic_cleanup, re-announcement)
+  #[test]
+  fn xc_lease_housekeeping() {
+    let alpha = reduced_alphabet();
+    let a = enumerate_from(&START_ANNOUNCED, &alpha, 4..=4, true);
+    let b = enumerate_from(&START_TIMED_OUT, &alpha, 4..=4, true);
+    assert!(a > 100_000 && b > 100_000, "vacuity guard: only {} + {} sequences enumerated", a, b);
   }
 }
